@@ -207,6 +207,68 @@ def validator_cases(draw):
     return [subname, form, p]
 
 
+# OneOf/NoneOf admit exactly the objects for which Python's `in` holds on the collection the user gave, whatever its type
+def collection_oracle(ctx):
+    def oracle(case):
+        subkind, colltype, items, macro = case
+        if subkind == "byte":
+            sub, domain = C.Byte, list(range(0, 256))
+        elif subkind == "bytes1":
+            sub, domain = C.Bytes(1), [bytes([b]) for b in range(256)]
+        elif subkind == "bytes2":
+            sub, domain = C.Bytes(2), [bytes([a, b]) for a in (0, 1, 65, 66, 255) for b in (0, 1, 65, 66, 255)]
+        else:
+            sub, domain = C.PaddedString(2, "ascii"), [a + b for a in "ABg" for b in "ABg"] + ["A", "B", "g"]
+        coll = {"list": list, "tuple": tuple, "set": set, "frozenset": frozenset, "dictkeys": lambda x: {k: None for k in x}, "same": lambda x: x,
+                "range": lambda x: range(x[0], x[1])}[colltype](items)
+        con = (C.OneOf if macro == "oneof" else C.NoneOf)(sub, coll)
+        for v in domain:
+            try:
+                member = v in coll
+            except TypeError:
+                continue        # (the predicate itself is not defined for this pair: int in str ...)
+            want = member if macro == "oneof" else not member
+            enc = sub.build(v)
+            o = call(con.parse, enc)
+            b = call(con.build, v)
+            ctx.record([case, repr(v)], True, ["collection/%s/%s" % (colltype, "accept" if want else "reject")])
+            if want and not (o.ok and o.value == v and b.ok and b.value == enc):
+                return Failure("C13/validator/collection-rejects-valid", "%s(%s, %r): %r satisfies the predicate but parse -> %r, build -> %r" % (macro, subkind, coll, v, o, b))
+            if not want and not (is_exc(o, C.ValidationError) and is_exc(b, C.ValidationError)):
+                return Failure("C13/validator/collection-accepts-invalid", "%s(%s, %r): %r violates the predicate but parse -> %r, build -> %r" % (macro, subkind, coll, v, o, b))
+        return None
+    return oracle
+
+
+@st.composite
+def collection_cases(draw):
+    subkind = draw(st.sampled_from(["byte", "byte", "bytes1", "bytes2", "str2"]))
+    macro = draw(st.sampled_from(["oneof", "noneof"]))
+    if subkind == "byte":
+        colltype = draw(st.sampled_from(["list", "tuple", "set", "frozenset", "dictkeys", "range", "same"]))
+        if colltype == "range":
+            a = draw(st.integers(0, 255))
+            return [subkind, colltype, [a, draw(st.integers(a, 256))], macro]
+        if colltype == "same":
+            return [subkind, colltype, draw(st.binary(max_size=5)), macro]      # a bytes object holds integers
+        return [subkind, colltype, draw(st.lists(st.integers(0, 255), max_size=5, unique=True)), macro]
+    if subkind in ("bytes1", "bytes2"):
+        colltype = draw(st.sampled_from(["list", "tuple", "set", "same", "same"]))
+        if colltype == "same":
+            return [subkind, colltype, draw(st.binary(max_size=6).map(lambda b: bytes(x % 3 + 65 if x % 2 else x for x in b))), macro]   # substring semantics
+        n = 1 if subkind == "bytes1" else 2
+        return [subkind, colltype, draw(st.lists(st.binary(min_size=n, max_size=n), max_size=4, unique=True)), macro]
+    colltype = draw(st.sampled_from(["list", "set", "same", "same"]))
+    if colltype == "same":
+        return [subkind, colltype, draw(st.text(alphabet="ABg", max_size=6)), macro]
+    return [subkind, colltype, draw(st.lists(st.text(alphabet="ABg", min_size=1, max_size=2), max_size=4, unique=True)), macro]
+
+
+def campaign_collections(ctx):
+    ctx.search(collection_cases(), collection_oracle(ctx), ctx.budget(600, 8000))
+campaign_collections.shards = (2, 8)
+
+
 def campaign_validators(ctx):
     ctx.search(validator_cases(), validator_oracle(ctx), ctx.budget(400, 6000))
 campaign_validators.shards = (4, 8)
@@ -608,7 +670,7 @@ def campaign_error_random(ctx):
 campaign_error_random.shards = (2, 8)
 
 
-CAMPAIGNS = {"const": campaign_const, "validators": campaign_validators, "enum": campaign_enum, "flags": campaign_flags,
+CAMPAIGNS = {"const": campaign_const, "validators": campaign_validators, "collections": campaign_collections, "enum": campaign_enum, "flags": campaign_flags,
              "mapping": campaign_mapping, "error_enum": campaign_error_enum, "error_random": campaign_error_random}
 
 
@@ -618,4 +680,6 @@ def replay(campaign, case):
     c = _C()
     if campaign.startswith("error"):
         return error_chain_check(c, case[0], case[1])
+    if campaign == "collections":
+        return collection_oracle(c)(case)
     return {"const": const_oracle, "validators": validator_oracle, "enum": enum_oracle, "flags": flags_oracle, "mapping": mapping_oracle}[campaign](c)(case)
